@@ -60,6 +60,28 @@ pub fn run_c06(o: &Opts) -> Report {
         };
         push_c06(&mut rep, &mut cases, &a, &b, stream, &mut rng);
     }
+    // near misses of the symmetric statements: repeated operands, one operand shared (either side, both orders of ==),
+    // and of the set-like constructors: one element replaced / duplicated
+    for k in [22usize, 24, 29] {
+        for _ in 0..4 {
+            let x = g.term(&mut rng, 3);
+            let y = g.term(&mut rng, 3);
+            let mk = |a: &Term, b: &Term| match k {
+                22 => Term::new_similarity(a.clone(), b.clone()),
+                24 => Term::new_equivalence(a.clone(), b.clone()),
+                _ => Term::new_equivalence_concurrent(a.clone(), b.clone()),
+            };
+            let forms = [mk(&x, &x), mk(&x, &y), mk(&y, &x), mk(&y, &y)];
+            for a in &forms {
+                for b in &forms {
+                    push_c06(&mut rep, &mut cases, a, b, "symmetric-near-miss", &mut rng);
+                    // the same pair nested inside an unordered and an ordered compound
+                    let z = g.atom(&mut rng);
+                    push_c06(&mut rep, &mut cases, &Term::new_conjunction(vec![a.clone(), z.clone()]), &Term::new_conjunction(vec![z.clone(), b.clone()]), "symmetric-near-miss-nested", &mut rng);
+                }
+            }
+        }
+    }
     rep.shards = write_shards(&o.outdir, "C06", "Nv.Run.TermRun", "mismatches_c06", "c06case", "N_scope", &cases, o.shards, "").unwrap();
     rep
 }
